@@ -50,6 +50,10 @@ SCN = {
     "flush_enospc": ("any", "let wf = open(\"/dev/full\", \"w\"); write(wf, \"x\"); rep(flush(wf));"),
     "flush_empty_nofault": ("any", "rep(flush(open(\"/dev/full\", \"w\")));"),
     "write_stdout_nl_enospc": ("stdout-full", "rep(write(stdout, byte(10)));"),
+    "write_stdout_str_nl_enospc": ("stdout-full", "rep(write(stdout, \"a line\n\"));"),
+    "write_stdout_str_big_enospc": ("stdout-full", "rep(write(stdout, \"0123456789\" * 300));"),
+    "write_stdout_arr_enospc": ("stdout-full", "rep(write(stdout, mk(3000)));"),
+    "write_stderr_str_big_enospc": ("stderr-full", "rep(write(stderr, \"0123456789\" * 300));"),
     "write_stdout_small_nofault": ("stdout-full", "rep(write(stdout, \"abc\"));"),
     "write_stdout_pkt_enospc": ("stdout-full", "rep(write(stdout, %s));" % BIGPKT),
     "flush_stdout_enospc": ("stdout-full", "write(stdout, \"abc\"); rep(flush(stdout));"),
@@ -74,7 +78,7 @@ SCN = {
 }
 # calls that stopped the interpreter before the repairs e9b7dd0 / 4ce3547 / 13af4ce: still drawn less often, so that a
 # regression in one of them cannot hide the calls after it in every sequence
-STOPPERS = {"flush_enospc", "write_stdout_nl_enospc", "flush_stdout_enospc", "write_stderr_enospc", "pcap_open_enoent", "pcap_open_x_eexist",
+STOPPERS = {"flush_enospc", "write_stdout_nl_enospc", "write_stdout_str_nl_enospc", "write_stdout_str_big_enospc", "write_stdout_arr_enospc", "write_stderr_str_big_enospc", "flush_stdout_enospc", "write_stderr_enospc", "pcap_open_enoent", "pcap_open_x_eexist",
             "pcap_open_enotdir", "pcap_open_w_eisdir", "pcap_open_eacces"}
 
 
